@@ -4,6 +4,7 @@ package main
 
 import (
 	"fmt"
+	"go/token"
 	"go/types"
 	"os"
 	"path/filepath"
@@ -379,11 +380,108 @@ func (w *Walker) pathGuardAny(fr *Frame, site ssa.Instruction, alts ...guardAlt)
 	for f := fr; f != nil; f = f.Parent {
 		if cur != nil && f.Fn != nil && f.Fn.Blocks != nil {
 			ff := f
-			envs, complete := pathAssignments(f.Fn, cur, func(v ssa.Value) string { return w.ts.Of(v, ff).LooseString() })
+			envs, atomVal, complete := pathAssignmentsV(f.Fn, cur, func(v ssa.Value) string { return w.ts.Of(v, ff).LooseString() })
 			if complete && len(envs) > 0 {
 				all := true
 				used := map[string]bool{}
-				for _, env := range envs {
+				for _, env0 := range envs {
+					// what the decided atoms imply: a guard helper that returned nil / true / false
+					env := map[string]bool{}
+					var guards []CallFact
+					for k, v := range env0 {
+						env[k] = v
+						for _, ft := range withEquivalents([]FactT{{Text: k, Holds: v}}) {
+							if _, ok := env[ft.Text]; !ok {
+								env[ft.Text] = ft.Holds
+							}
+						}
+						val := atomVal[k]
+						var cf *CallFact
+						switch x := val.(type) {
+						case *ssa.BinOp:
+							if (x.Op == token.EQL || x.Op == token.NEQ) && (isNilConst(x.X) || isNilConst(x.Y)) {
+								for _, side := range []ssa.Value{x.X, x.Y} {
+									if call := callOfErr(side); call != nil {
+										outcome := "err!=nil"
+										if (x.Op == token.EQL) == v {
+											outcome = "err==nil"
+										}
+										cf = &CallFact{Call: call, Outcome: outcome}
+									}
+								}
+							}
+						case *ssa.Call:
+							if bt, ok := x.Type().Underlying().(*types.Basic); ok && bt.Kind() == types.Bool {
+								outcome := "false"
+								if v {
+									outcome = "true"
+								}
+								cf = &CallFact{Call: x, Outcome: outcome}
+							}
+						}
+						if cf != nil {
+							for _, ft := range withEquivalents(w.impliedFacts(ff, *cf, 0)) {
+								if isOutcomeFact(ft.Text) {
+									continue
+								}
+								if _, ok := env[ft.Text]; !ok {
+									env[ft.Text] = ft.Holds
+								}
+							}
+							guards = append(guards, *cf)
+						}
+					}
+					// disjunctive guards (`if !R || ok { return nil }`): every path through the
+					// helper to a matching return must decide one of the alternatives
+					expanded := []map[string]bool{env}
+					for _, g := range guards {
+						sub := w.calleePathEnvs(ff, g)
+						if len(sub) == 0 || len(sub)*len(expanded) > 256 {
+							continue
+						}
+						var next []map[string]bool
+						for _, e1 := range expanded {
+							for _, e2 := range sub {
+								m := map[string]bool{}
+								for k, v := range e1 {
+									m[k] = v
+								}
+								for k, v := range e2 {
+									if _, ok := m[k]; !ok {
+										m[k] = v
+									}
+								}
+								next = append(next, m)
+							}
+						}
+						expanded = next
+					}
+					allFound := true
+					for _, env := range expanded {
+						found := false
+						for k, v := range env {
+							for _, a := range alts {
+								match := v == a.Value && strings.HasSuffix(k, a.Suffix)
+								for _, s := range a.Subs {
+									if !strings.Contains(k, s) {
+										match = false
+									}
+								}
+								if match {
+									found = true
+									used[fmt.Sprintf("%s is %v", k, v)] = true
+								}
+							}
+						}
+						if !found {
+							allFound = false
+						}
+					}
+					if !allFound {
+						all = false
+						break
+					}
+					continue
 					found := false
 					for k, v := range env {
 						for _, a := range alts {
@@ -423,4 +521,52 @@ func (w *Walker) pathGuardAny(fr *Frame, site ssa.Instruction, alts ...guardAlt)
 		}
 	}
 	return "", false
+}
+
+// calleePathEnvs: the decided atoms (with equivalents) of every feasible path
+// through the static callee of a guard call to a return matching its outcome.
+func (w *Walker) calleePathEnvs(fr *Frame, cf CallFact) []map[string]bool {
+	g := cf.Call.Common().StaticCallee()
+	if g == nil || g.Blocks == nil || !isIrismodFunc(g) || onChain(fr, g) {
+		return nil
+	}
+	nfr := &Frame{Fn: g, Parent: fr, Call: cf.Call, Depth: fr.Depth + 1}
+	var out []map[string]bool
+	for _, r := range returnsOf(g) {
+		ok := false
+		switch cf.Outcome {
+		case "err==nil":
+			ok = !isFailureReturn(r)
+		case "err!=nil":
+			ok = lastResultIsError(g) && !isNilConst(r.Results[len(r.Results)-1])
+		case "true", "false":
+			if len(r.Results) == 1 {
+				if c, isC := r.Results[0].(*ssa.Const); isC && c.Value != nil {
+					ok = (c.Value.ExactString() == "true") == (cf.Outcome == "true")
+				} else {
+					ok = true
+				}
+			}
+		}
+		if !ok {
+			continue
+		}
+		envs, complete := pathAssignments(g, r, func(v ssa.Value) string { return w.ts.Of(v, nfr).LooseString() })
+		if !complete {
+			return nil
+		}
+		for _, e := range envs {
+			m := map[string]bool{}
+			for k, v := range e {
+				m[k] = v
+				for _, ft := range withEquivalents([]FactT{{Text: k, Holds: v}}) {
+					if _, has := m[ft.Text]; !has {
+						m[ft.Text] = ft.Holds
+					}
+				}
+			}
+			out = append(out, m)
+		}
+	}
+	return out
 }
